@@ -231,6 +231,23 @@ example : ((runI { cfg := { memCap := 2, queueCap := 5, maxBytes := 100, hasDir 
 /-- the demo run ends with 3 bytes of files, exactly the limit: the bound is tight -/
 example : (run { cfg := demoCfg } demoOps).map (fun s => diskBytes s.disk) = some 3 := by decide
 
+/-! ### translated conditions (Tie B, semantic form) -/
+
+theorem C03_fact_rules_found : Facts.gen_quota_rule_found = true ∧ Facts.gen_spill_rule_found = true := by decide
+/-- the quota test translated from `UnloadChunk` decides `Buffer.unload`: an unsaved loaded chunk is written iff the test is false -/
+theorem C03_gen_quota_rule (s : St) (e : Entry) (d : Bytes) (hs : e.saved = false) (hd : e.data = some d) (hdir : s.cfg.hasDir = true) :
+    (unload s e).2.2 = !Facts.gen_quota_rule s.c.gBytes d.length s.cfg.maxBytes := by
+  unfold unload Facts.gen_quota_rule
+  simp only [hs, hd, hdir, Bool.false_eq_true, if_false, Bool.not_true]
+  by_cases h : s.c.gBytes + (d.length : Int) > (s.cfg.maxBytes : Int) <;> simp [h]
+/-- the spill test translated from `Accept` is the model's (`outW.length ≥ memCap / 2`) -/
+theorem C03_gen_spill_rule (w cap : Nat) : Facts.gen_spill_rule w cap = decide (w ≥ cap / 2) := by
+  unfold Facts.gen_spill_rule
+  have : ((2 : Int)) = ((2 : Nat) : Int) := rfl
+  rw [this, Int.tdiv_natCast]
+  generalize cap / 2 = q
+  simp
+
 /-! ### fact obligations (Tie B) -/
 
 /-- `Accept` never waits: its only channel operation is a `select` with a `default` branch that counts the drop -/
